@@ -143,7 +143,10 @@ unsafe fn level_swap<M: Manager>(
                         children
                     }
                     node => {
-                        debug_assert!(node.level() > lower_no);
+                        // Note that we cannot compare against `lower_no`
+                        // here: nodes below may still carry level numbers
+                        // from before the reordering operation.
+                        debug_assert!(node.level() != upper_no_pre);
                         // The child is below the lower level, so we always have
                         // this child
                         (0..M::InnerNode::ARITY).map(|_| c.borrowed()).collect()
@@ -182,27 +185,44 @@ unsafe fn level_swap<M: Manager>(
             .collect();
 
         drop(grandchildren);
-        for child in children {
-            // Revisit the "old" children of `e`. If these are the only
-            // children, we may remove them, if they are on the old lower level.
-            // (A child might also be at some lower level, in which case the
-            // node could also be removed. However we must not access such a
-            // node.)
-            if let Node::Inner(child_node) = manager.get_node(&*child)
-                && child_node.level() == lower_no_pre
-                && child_node.ref_count() == 1
-            {
-                // The reference stems from the old `node`, whose children
-                // we replace below. Hence, we can remove child node.
-                upper.remove(child_node);
-            }
-        }
+        drop(children);
 
-        upper.insert(manager.clone_edge(e));
-        for (i, child) in new_children.into_iter().enumerate() {
+        // Replace the children of `node`. This changes the node's hash value,
+        // so we only (re-)insert the node into the unique table afterwards.
+        let old_children: SmallVec<[M::Edge; 2]> = new_children
+            .into_iter()
+            .enumerate()
             // SAFETY: we have exclusive access to all nodes at the old upper
             // level and no child is borrowed.
-            manager.drop_edge(unsafe { node.set_child(i, child) });
+            .map(|(i, child)| unsafe { node.set_child(i, child) })
+            .collect();
+        // The node stays at the upper position, i.e., it now belongs to the
+        // level whose nodes are (still) numbered `lower_no_pre`.
+        // SAFETY: the caller will update level numbers accordingly
+        unsafe { node.set_level(lower_no_pre) };
+        // SAFETY: as above
+        unsafe { upper.insert_unchecked(manager.clone_edge(e)) };
+
+        for child in old_children {
+            // Revisit the "old" children of `e`. If `child` is the only
+            // remaining reference (besides the one in the unique table), we
+            // may remove the node, if it is on the old lower level. (A child
+            // might also be at some lower level, in which case the node could
+            // also be removed. However we must not access such a node.)
+            let unreferenced = match manager.get_node(&child) {
+                Node::Inner(child_node)
+                    if child_node.level() == lower_no_pre && child_node.ref_count() == 1 =>
+                {
+                    Some(child_node)
+                }
+                _ => None,
+            };
+            // The node is still referenced from the unique table, hence it is
+            // valid to access `child_node` after dropping `child`.
+            manager.drop_edge(child);
+            if let Some(child_node) = unreferenced {
+                upper.remove(child_node);
+            }
         }
     }
 
